@@ -605,8 +605,115 @@ def check(ctx):
         ctx.check(bool(br) and guess(gf, br[0] + b"KDEwOnB1YmxpYy1rZXk=}") == "public_lsh", "dispatch/guess-recognises-written", f"{QK}_guessStringType | LSH public", "a public LSH key ({...}) is not classified public_lsh")
         ctx.check(guess(gf, b"(11:private-key(3:dsa") == "private_lsh", "dispatch/guess-recognises-written", f"{QK}_guessStringType | LSH private", "a private LSH s-expression is not classified private_lsh")
 
+    with ctx.section('keys/fixed-width'):
+        _fixed_width(ctx)
     with ctx.section('provenance/binary-input'):
         _provenance(ctx)
+
+# ---- fixed-width fields ------------------------------------------------------------------------------------
+
+def _conv_kind(e, al):
+    """how an operand of a byte concatenation is sized: ('const', n) / ('fixed', width text) / ('minimal',) / ('opaque',)"""
+    from sa.props._lib_h import csrc
+    if isinstance(e, ast.Constant) and isinstance(e.value, bytes):
+        return ("const", len(e.value))
+    if isinstance(e, ast.Call):
+        nm = call_attr(e)
+        if nm == "int_to_bytes":
+            if len(e.args) == 2 and not const_is(e.args[1], None):
+                return ("fixed", csrc(e.args[1], al))
+            kw = [k for k in e.keywords if k.arg == "length"]
+            if kw and not const_is(kw[0].value, None):
+                return ("fixed", csrc(kw[0].value, al))
+            return ("minimal",)
+        if nm == "to_bytes" and e.args:
+            w = e.args[0]
+            if any(isinstance(x, ast.Attribute) and x.attr == "bit_length" for x in ast.walk(w)):
+                return ("minimal",)
+            order = e.args[1] if len(e.args) > 1 else next((k.value for k in e.keywords if k.arg == "byteorder"), None)
+            if order is not None and not const_is(order, "big"):
+                return ("opaque",)
+            return ("fixed", csrc(w, al))
+        if nm in ("rjust", "zfill") and e.args:
+            return ("fixed", csrc(e.args[0], al))
+    if isinstance(e, ast.Subscript) and isinstance(e.value, ast.Call) and call_attr(e.value) == "MP":
+        return ("minimal",)
+    return ("opaque",)
+
+
+def _width_for_key_size(width_text):
+    """evaluate a width expression over the key sizes of the supported curves; None when not evaluable"""
+    tree = ast.parse(width_text, mode="eval").body
+
+    class R(ast.NodeTransformer):
+        def visit_Attribute(self, node):
+            if node.attr == "key_size":
+                return ast.Name(id="KS", ctx=ast.Load())
+            return self.generic_visit(node)
+    tree = ast.fix_missing_locations(R().visit(tree))
+    out = {}
+    for ks in (256, 384, 521):
+        v = _c(tree, {"KS": ks})
+        if not isinstance(v, int):
+            return None
+        out[ks] = v
+    return out
+
+
+def _fixed_width(ctx):
+    from sa.props._lib_h import local_aliases, pure_expr
+    kcls = ctx.cls(KY, "Key")
+    km = methods(kcls)
+    n_cat = 0
+    # (1) general: inside an NS(...) payload built by concatenation no operand may be a minimal-length integer encoding
+    for name, fn in km.items():
+        al = local_aliases(fn, allow=pure_expr)
+        for c in ast.walk(fn):
+            if isinstance(c, ast.Call) and call_attr(c) == "NS" and len(c.args) == 1:
+                ops = flatten_add(c.args[0])
+                if len(ops) < 2:
+                    continue
+                n_cat += 1
+                kinds = [_conv_kind(o, al) for o in ops]
+                bad = [src(o)[:50] for o, k in zip(ops, kinds) if k == ("minimal",)]
+                ctx.check(not bad, "keys/fixed-width-fields", f"{QK}{name} | {src(c)[:80]}",
+                          f"a variable-length integer encoding ({bad}) is concatenated without its own length prefix: values with leading zero bytes give a "
+                          "shorter string, the reader cannot find the field boundaries (fromString(toString()) fails / fingerprint differs)")
+    ctx.floor("keys/fixed-width-fields", n_cat, 2, "concatenated NS payloads")
+    # (2) the EC public point: 0x04 || X || Y with both coordinates padded to the field width; the reader hands the string to
+    #     from_encoded_point, which requires exactly 1 + 2 * ceil(key_size / 8) bytes
+    wb = type_branches(km["blob"], "writer")
+    rb = type_branches(km["_fromString_BLOB"], "reader")
+    ctx.need("EC" in wb and "<curve>" in rb, "EC branches of blob / _fromString_BLOB")
+    reader_fixed = any(isinstance(c, ast.Call) and call_attr(c) in ("from_encoded_point", "_fromECEncodedPoint") for st in rb["<curve>"] for c in ast.walk(st))
+    ctx.check(reader_fixed, "keys/fixed-width-fields", QK + "_fromString_BLOB | EC point consumer",
+              "the reader no longer hands the point to a SEC1 decoder (fixed 1 + 2*width bytes): writer/reader width kinds must be re-established")
+    al = local_aliases(km["blob"], allow=pure_expr)
+    pts = []
+    for st in wb["EC"]:
+        for c in ast.walk(st):
+            if isinstance(c, ast.Call) and call_attr(c) == "NS" and len(c.args) == 1 and len(flatten_add(c.args[0])) >= 2:
+                pts.append(c)
+    if ctx.check(len(pts) == 1, "keys/fixed-width-fields", QK + "blob | EC point", f"the EC branch of blob() has {len(pts)} concatenated point strings (one expected)"):
+        ops = flatten_add(pts[0].args[0])
+        kinds = [_conv_kind(o, al) for o in ops]
+        shape = len(ops) == 3 and kinds[0] == ("const", 1) and _c(ops[0]) == b"\x04" and kinds[1][0] == "fixed" and kinds[2][0] == "fixed"
+        ctx.check(shape, "keys/fixed-width-fields", QK + "blob | EC point layout",
+                  f"the EC point is not 0x04 || X || Y with X and Y converted at a fixed width (operand kinds: {kinds}); the reader (from_encoded_point) requires "
+                  "1 + 2*ceil(key_size/8) bytes, so a coordinate with a leading zero byte makes the blob unparseable")
+        if shape:
+            ctx.check(kinds[1][1] == kinds[2][1], "keys/fixed-width-fields", QK + "blob | EC point widths agree", f"X is {kinds[1][1]} bytes wide but Y is {kinds[2][1]}")
+            ws = _width_for_key_size(kinds[1][1])
+            ctx.check(ws == {256: 32, 384: 48, 521: 66}, "keys/fixed-width-fields", QK + "blob | EC coordinate width",
+                      f"coordinate width {kinds[1][1]} evaluates to {ws} for key sizes 256/384/521; SEC1 requires 32/48/66 bytes")
+            names = [src(o.args[0]) if isinstance(o, ast.Call) and o.args and call_attr(o) == "int_to_bytes" else src(o.func.value) if isinstance(o, ast.Call) and isinstance(o.func, ast.Attribute) else "?"
+                     for o in ops[1:]]
+            ctx.check(names == ["data['x']", "data['y']"], "keys/field-order", QK + "blob | EC point X then Y", f"the point is built from {names}, expected x then y")
+    # (3) Ed25519: the private scalar is the first 32 bytes of k||a on the reader side and data()['k'] is the raw 32-byte seed on the writer side
+    data_f = km["data"]
+    raw = [c for c in ast.walk(data_f) if isinstance(c, ast.Call) and call_attr(c) in ("private_bytes", "public_bytes") and "Raw" in src(c)]
+    ctx.check(len(raw) >= 3, "keys/fixed-width-fields", QK + "data | Ed25519 raw encodings", "Ed25519 components are no longer taken as the fixed-size Raw encodings (32 bytes)")
+
 
 # ---- provenance: the byte string handed to a binary parser is the caller's byte string ---------------------
 
@@ -760,6 +867,11 @@ def _provenance(ctx):
 
 
 MUTANTS = [
+    Mutant("ec-point-minimal-coordinates", KY, "                    + utils.int_to_bytes(data[\"x\"], byteLength)\n                    + utils.int_to_bytes(data[\"y\"], byteLength)\n",
+           "                    + data[\"x\"].to_bytes((data[\"x\"].bit_length() + 7) // 8, \"big\")\n                    + data[\"y\"].to_bytes((data[\"y\"].bit_length() + 7) // 8, \"big\")\n",
+           expect_rule="keys/fixed-width-fields"),
+    Mutant("ec-point-y-width-dropped", KY, "                    + utils.int_to_bytes(data[\"y\"], byteLength)\n", "                    + utils.int_to_bytes(data[\"y\"])\n", expect_rule="keys/fixed-width-fields"),
+    Mutant("ec-width-floor-instead-of-ceil", KY, "            byteLength = (self._keyObject.curve.key_size + 7) // 8\n", "            byteLength = self._keyObject.curve.key_size // 8\n", expect_rule="keys/fixed-width-fields"),
     Mutant("dispatch-trims-trailing-whitespace", KY, "            if passphrase:\n                raise BadKeyError(\"key not encrypted\")\n            return method(data)\n",
            "            if passphrase:\n                raise BadKeyError(\"key not encrypted\")\n            return method(data.rstrip())\n", expect_rule="input/binary-formats-unmodified"),
     Mutant("hoisted-strip-for-all-formats", KY, "        passphrase = _normalizePassphrase(passphrase)\n        if type is None:\n            type = cls._guessStringType(data)\n",
@@ -789,6 +901,9 @@ MUTANTS = [
            expect_rule="keys/data-components"),
 ]
 SILENT = [
+    Silent("ec-point-to_bytes-fixed-width", KY, "                    + utils.int_to_bytes(data[\"x\"], byteLength)\n                    + utils.int_to_bytes(data[\"y\"], byteLength)\n",
+           "                    + data[\"x\"].to_bytes(byteLength, \"big\")\n                    + data[\"y\"].to_bytes(byteLength, \"big\")\n"),
+    Silent("ec-width-inlined", KY, "            byteLength = (self._keyObject.curve.key_size + 7) // 8\n", "            fieldBits = self._keyObject.curve.key_size\n            byteLength = (fieldBits + 7) // 8\n"),
     Silent("strip-hoisted-for-text-formats-only", KY, "        if type is None:\n            raise BadKeyError(f\"cannot guess the type of {data!r}\")\n",
            "        if type is None:\n            raise BadKeyError(f\"cannot guess the type of {data!r}\")\n        if type.lower() in (\"public_openssh\", \"private_openssh\"):\n            data = data.strip()\n"),
     Silent("text-parser-strips-itself", KY, "        blob = decodebytes(data.split()[1])\n        return cls._fromString_BLOB(blob)", "        data = data.strip()\n        blob = decodebytes(data.split()[1])\n        return cls._fromString_BLOB(blob)"),
